@@ -78,6 +78,9 @@ func (e *Env) Logf(format string, a ...any) { e.log = append(e.log, fmt.Sprintf(
 type Prop interface {
 	ID() string
 	Level() string // exploration | fault_enumeration
+	// Prepare is called once per worker process before NumPlans/Plan; sweeps
+	// use it to run an honest baseline and count the mutation space.
+	Prepare(t *testing.T, tier string, seed uint64)
 	// NumPlans is how many plans the tier explores per seed (enumerated sweep
 	// plus random sample).
 	NumPlans(tier string) int
@@ -252,6 +255,7 @@ func Worker(t *testing.T, id, tier string, seed uint64, shard, nshards int, budg
 	t0 := time.Now()
 	deadline := t0.Add(budget)
 	res := &WorkerResult{Property: id, Tier: tier, Seed: seed, Shard: shard, Classes: map[string]int{}, Faults: map[string]int{}, Probes: map[string]int{}}
+	p.Prepare(t, tier, seed)
 	n := p.NumPlans(tier)
 	distinct := map[string]bool{}
 	scheds := map[string]bool{}
@@ -367,6 +371,12 @@ func Replay(t *testing.T, path string) bool {
 	if err := json.Unmarshal(rf.Plan, plan); err != nil {
 		t.Fatalf("replay: %v", err)
 	}
+	p.Prepare(t, rf.Tier, 0)
 	o := RunPlan(t, p, plan)
 	return hasKey(o, rf.Violation.Key) && o.LogHash == rf.LogHash
 }
+
+// noPrepare is embedded by properties without a preparation step.
+type noPrepare struct{}
+
+func (noPrepare) Prepare(*testing.T, string, uint64) {}
